@@ -76,8 +76,8 @@ class IdealReservoir:
                 a_matrix, b, atol=_ATOL, rtol=_RTOL
             )
             if info != 0:
-                msg = f"linear solve did not converge at time step {i} (info={info})"
-                raise RuntimeError(msg)
+                # BiCGSTAB stalled or broke down: solve the tridiagonal system directly
+                pseudopressure[i + 1] = sparse.linalg.spsolve(a_matrix.tocsc(), b)
         self.pseudopressure = pseudopressure
 
     def recovery_factor(self, time: ndarray | None = None, density=False) -> ndarray:
@@ -223,8 +223,8 @@ class SinglePhaseReservoir(IdealReservoir):
                 a_matrix, b, atol=_ATOL, rtol=_RTOL
             )
             if info != 0:
-                msg = f"linear solve did not converge at time step {i} (info={info})"
-                raise RuntimeError(msg)
+                # BiCGSTAB stalled or broke down: solve the tridiagonal system directly
+                pseudopressure[i + 1] = sparse.linalg.spsolve(a_matrix.tocsc(), b)
         self.pseudopressure = pseudopressure
 
 
